@@ -126,6 +126,14 @@ impl<S: Read + Write> Client<S> {
         }
     }
 
+    /// Verification hook (cfg rdp_rs_verif only): build an X224 client directly
+    /// over an already "connected" TPKT layer so upper layers can be driven
+    /// over an in-memory transport.
+    #[cfg(rdp_rs_verif)]
+    pub fn verif_new(transport: tpkt::Client<S>, selected_protocol: Protocols) -> Self {
+        Self::new(transport, selected_protocol)
+    }
+
     /// Send a new x224 formated message
     /// using the underlying layer
     ///
